@@ -1143,7 +1143,7 @@ func TestDecode(t *testing.T) {
 	// a worker restart or a stall; on a tree without them a case takes ~0.2 ms.
 	n := 6000
 	if evid.KnownActive(classAlloc) || evid.KnownActive(classShortRead) {
-		n = 700
+		n = 500
 	}
 	evid.Check(t, "Decode", n, func(rt *rapid.T) {
 		before := o.Avoided["id-range-beyond-bitmap"]
